@@ -209,6 +209,21 @@ def run(ctx):
     bad_f, bad_t, skipped = runloop.coq_compare(ctx, "c15r", pairs)
     corr_bad = bad_f if len(bad_f) <= len(bad_t) else bad_t
 
+    # the same modes when the csvpath is a member of a named-paths group (CsvPaths presets some settings before the comment is read: the comment wins)
+    import groups
+    gjobs = []
+    for gi, (cm, want) in enumerate([("~ return-mode: no-matches ~ ", "r1 r3 r4".split()), ("~ id: m return-mode: no-matches unmatched-mode: keep ~ ", "r1 r3 r4".split()),
+                                     ("~ return-mode: matches ~ ", "r2 r5".split()), ("", "r2 r5".split()), ("~ run-mode: no-run ~ ", [])]):
+        for method in ("collect_paths", "collect_by_line"):
+            gjobs.append({"id": 300000 + len(gjobs), "want": want, "cm": cm, "files": {"f": [["id", "a"], ["r1", "1"], ["r2", "7"], ["r3", "2"], ["r4", "3"], ["r5", "9"]]},
+                          "groups": {"g": [cm + '$[1*][ gt(#a, 5) ]']}, "runs": [{"method": method, "pathsname": "g", "filename": "f", "new_instance": True}]})
+    gres = pmap(ctx, groups.run_history, gjobs, chunksize=2)
+    for j, r in zip(gjobs, gres):
+        o = (r.get("runs") or [None])[0]
+        got = None if (r["setup_exc"] or not o or o["exc"] or not o["members"] or not isinstance(o["members"][0]["lines"], list)) else [l[0] for l in o["members"][0]["lines"]]
+        if got != j["want"]:
+            fails.append({"kind": "a mode setting in the comment of a named-paths member has no effect (or another effect than for the csvpath run alone)", "csvpath": j["groups"]["g"][0],
+                          "rows": j["files"]["f"], "method": j["runs"][0]["method"], "member_lines": got, "expected": j["want"], "exc": r["setup_exc"] or (o and o["exc"])})
     if fails:
         ctx.violation("relations", {"what": fails[0]["kind"], "case": fails[0], "more": fails[1:5]})
     if d23:
